@@ -21,7 +21,10 @@ THEOREMS = ["C02_gauss_loop_is_bin_average", "C02_lorentz_loop_is_bin_integral",
             "C02_gauss_bounds", "C02_gauss_total_partial", "C02_line_linear",
             "C02_zeeman_weights", "C02_pi_plus_sigma_is_unpolarised", "C02_multiplet_shares",
             "C02_zeeman_structure_normalised", "C02_mse_weights", "C02_stark_weights",
-            "C02_stark_integral_partial", "C02_zero_width_adds_nothing", "C02_quadrature_cache_row"]
+            "C02_stark_integral_partial", "C02_zero_width_adds_nothing", "C02_quadrature_cache_row",
+            "C02_samples_integral", "C02_range_ordered", "C02_gauss_whole_radiance", "C02_stark_whole_radiance_partial",
+            "C02_samples_pi_plus_sigma", "C02_component_order_irrelevant", "C02_polarisation_setter_history",
+            "C02_validation_sound"]
 
 CLASSES = ["GaussianLine", "MultipletLineShape", "ZeemanTriplet", "ParametrisedZeemanTriplet", "ZeemanMultiplet",
            "StarkBroadenedLine", "BeamEmissionMultiplet"]
@@ -43,6 +46,51 @@ def read_constants():
             raise RuntimeError("constants.pyx: cannot read %s" % name)
         out[key] = float(m[0])
     return out
+
+
+def read_model_constants():
+    """the numbers the Gallina model contains as literals, re-read from the current source (fail-closed): DEF constants,
+    the three polynomial coefficient lists and the two thresholds of StarkBroadenedLine"""
+    import ast
+    from fractions import Fraction
+
+    def src(rel):
+        return open(os.path.join(REPO, rel)).read()
+
+    def one(txt, pattern, what):
+        m = re.findall(pattern, txt, re.M)
+        if len(m) != 1:
+            raise RuntimeError("translator: cannot read %s (%d matches)" % (what, len(m)))
+        return m[0]
+    g, st, ms = src("cherab/core/model/lineshape/gaussian.pyx"), src("cherab/core/model/lineshape/stark.pyx"), \
+        src("cherab/core/model/lineshape/beam/mse.pyx")
+    out = {"cutoff_sigma": Fraction(one(g, r"^DEF GAUSSIAN_CUTOFF_SIGMA = ([0-9.eE+-]+)\s*$", "GAUSSIAN_CUTOFF_SIGMA")),
+           "lorentz_cutoff": Fraction(one(st, r"^DEF LORENTZIAN_CUTOFF_GAMMA = ([0-9.eE+-]+)\s*$", "LORENTZIAN_CUTOFF_GAMMA")),
+           "stark_splitting_factor": Fraction(one(ms, r"^DEF STARK_SPLITTING_FACTOR = ([0-9.eE+-]+)\s*$", "STARK_SPLITTING_FACTOR")),
+           "stark_l2t_low": Fraction(one(st, r"^\s*if fwhm_lorentz_to_total < ([0-9.eE+-]+):\s*$", "lower weight threshold")),
+           "stark_l2t_high": Fraction(one(st, r"^\s*elif fwhm_lorentz_to_total > ([0-9.eE+-]+):\s*$", "upper weight threshold"))}
+    for name, attr in (("poly_gauss", "_fwhm_poly_coeff_gauss"), ("poly_lorentz", "_fwhm_poly_coeff_lorentz"),
+                       ("poly_weight", "_weight_poly_coeff")):
+        txt = one(st, r"^\s*self\.%s = (\[[^\]]*\])\s*$" % attr, attr)
+        node = ast.parse(txt, mode="eval").body
+        vals = []
+        for el in node.elts:
+            seg = ast.get_source_segment(txt, el)
+            vals.append(Fraction(seg.replace(" ", "")))
+        out[name] = vals
+    return out
+
+
+def tie_text(mc):
+    ql = lambda l: "[" + "; ".join(qlit(v) for v in l) + "]"
+    return ("Require Import Cherab.Common.Qx Cherab.Model.C02_LineShape Cherab.Model.C02_Check.\nOpen Scope Q_scope.\n"
+            "(* the constants inside the model are those of the current source *)\n"
+            "Lemma source_constants_tie :\n  (Qeq_bool cutoff_sigma %s && Qeq_bool lorentz_cutoff %s && Qeq_bool stark_splitting_factor %s\n"
+            "   && Qeq_bool stark_l2t_low %s && Qeq_bool stark_l2t_high %s\n"
+            "   && qlist_eqb poly_gauss %s\n   && qlist_eqb poly_lorentz %s\n   && qlist_eqb poly_weight %s) = true.\n"
+            "Proof. vm_compute. reflexivity. Qed.\n" % (
+                qlit(mc["cutoff_sigma"]), qlit(mc["lorentz_cutoff"]), qlit(mc["stark_splitting_factor"]), qlit(mc["stark_l2t_low"]),
+                qlit(mc["stark_l2t_high"]), ql(mc["poly_gauss"]), ql(mc["poly_lorentz"]), ql(mc["poly_weight"])))
 
 
 # ---------------------------------------------------------------------------------------------
@@ -1039,6 +1087,86 @@ def quad_text(r):
         "; ".join("true" if e else "false" for e in r["errs"]), zlit(r["min"]), zlit(r["max"]), polys)
 
 
+POL_STRINGS = ["pi", "sigma", "no", "PI", "Sigma", "NO", "sIgMa", "Pi", "nO", "", " pi", "pi ", "none", "sigma_plus", "p", "SIGMA", "n0"]
+
+
+def policy_cases(impl, rng, n):
+    """constructor validation and the polarisation setter, outcome of the implementation next to the model's (compared in
+    Coq): Coq terms of type bool"""
+    M = impl.M
+    c = {"cls": "GaussianLine", "element": 1, "w": 656.1, "ts": 1.0, "vel": [0, 0, 0], "b": [0, 0, 1.0], "ne": 1e19, "te": 5.0}
+    plasma, sp, line, el = impl.scene(c)
+    ad = impl.ad
+
+    def accepted(f):
+        try:
+            f()
+            return True
+        except ValueError:
+            return False
+
+    def b2(x):
+        return "true" if x else "false"
+
+    def edge(rngv):
+        return rng.choice([0.0, -0.0, 5e-324, -5e-324, 2.0 ** -1074, 1e-300, -1e-300, 1.0, rngv, -rngv])
+    out = []
+    for k in range(n):
+        a_, b_ = edge(dyadic(rng, 0.01, 1, 8)), edge(dyadic(rng, 0.0, 2, 6))
+        ok = accepted(lambda: M.ParametrisedZeemanTriplet(line, 656.1, sp, plasma, ad, (a_, b_, 0.5)))
+        out.append("check_bool (param_zeeman_valid %s %s) %s" % (qlit(a_), qlit(b_), b2(ok)))
+        cij, aij, bij = edge(3.71e-18), edge(0.7665), edge(0.064)
+        ok = accepted(lambda: M.StarkBroadenedLine(line, 656.1, sp, plasma, ad, (cij, aij, bij)))
+        out.append("check_bool (stark_coeff_valid %s %s %s) %s" % (qlit(cij), qlit(aij), qlit(bij), b2(ok)))
+        w_, f_ = edge(656.0), edge(0.05)
+        ok = accepted(lambda: impl.StarkFunction(w_, f_))
+        out.append("check_bool (stark_function_valid %s %s) %s" % (qlit(w_), qlit(f_), b2(ok)))
+        nr = rng.randint(1, 5)
+        ws = [rng.randint(0, 16) for _ in range(nr)]
+        tot = 2 ** rng.randint(3, 6)
+        if rng.random() < 0.6:
+            ws[-1] += tot - sum(ws)
+        ratios = [x / tot for x in ws]                      # dyadic: the float sum is the exact sum
+        ok = accepted(lambda: M.MultipletLineShape(line, 656.1, sp, plasma, ad, [[656.0 + i for i in range(nr)], ratios]))
+        out.append("check_bool (multiplet_valid %s) %s" % (qlist(ratios), b2(ok)))
+        bz, sz = rng.choice([0.0, -0.0, 1.5, -1.5, 5e-324, -5e-324]), rng.choice(["pi", "PI", "sigma_plus", "Sigma_Minus", "sigma", "no", ""])
+        zs = impl.ZeemanStructure([(656.0, 1.0)], [(656.1, 1.0)], [(655.9, 1.0)])
+        try:
+            zs(bz, sz)
+            ok = True
+        except (ValueError, AttributeError):                # the unknown-string branch has a typo (.fotmat): AttributeError
+            ok = False
+        out.append("check_bool (zs_call_valid %s %s) %s" % (qlit(bz), coq_str(sz), b2(ok)))
+        # one live object: constructor polarisation, then a history of setter calls; after each call the getter is read
+        cls = rng.choice([M.ZeemanTriplet, M.ParametrisedZeemanTriplet, M.StarkBroadenedLine])
+        extra = ((0.05, 0.5, 0.5),) if cls is M.ParametrisedZeemanTriplet else (((3.71e-18, 0.7665, 0.064),) if cls is M.StarkBroadenedLine else ())
+        init = rng.choice(POL_STRINGS)
+        hist = [rng.choice(POL_STRINGS) for _ in range(rng.randint(0, 7))]
+        errs, gets = [], []
+        try:
+            ls = cls(line, 656.1, sp, plasma, ad, *extra, polarisation=init)
+            ctor_ok = True
+        except ValueError:
+            ctor_ok = False
+        if ctor_ok:
+            for v in hist:
+                try:
+                    ls.polarisation = v
+                    errs.append(False)
+                except ValueError:
+                    errs.append(True)
+                gets.append(ls.polarisation)
+        else:
+            hist = []
+        out.append("check_pol_history %s %s [%s] [%s] [%s]" % (coq_str(init), b2(ctor_ok), "; ".join(coq_str(v) for v in hist),
+                                                              "; ".join(b2(e) for e in errs), "; ".join(coq_str(v) for v in gets)))
+    return out
+
+
+def coq_str(s_):
+    return '"' + s_.replace('"', '""') + '"%string'
+
+
 def stark_coarse_probe(impl, quick):
     """StarkBroadenedLine (default integrator) with no Doppler part, window spanning +-60 FWHM: integral / R for bins of
     1 .. 200 FWHM and several alignments of the line inside its bin"""
@@ -1115,8 +1243,18 @@ def run(ctx):
     ]
     ctx.rebuild()
     ctx.proofs("Properties.C02", THEOREMS, extra_modules=("Model.C02_LineShape", "Model.C02_Quadrature", "Proofs.C02_Gauss", "Proofs.C02_Norm", "Proofs.C02_Weights",
-                              "Proofs.C02_Quadrature", "Model.C02_Check"))
+                              "Proofs.C02_Quadrature", "Model.C02_Policy", "Proofs.C02_Policy", "Proofs.C02_Sums", "Model.C02_Check"))
 
+    # ---- (T) the constants the model contains, regenerated from the current source; the kernel re-checks the tie lemma ----
+    from common import coqc
+    mc = read_model_constants()
+    ok_tie, out_tie = coqc(ctx.write_gen("Tie.v", tie_text(mc)), timeout=300)
+    ctx.obligation("Gen/C02/Tie.v source_constants_tie (cut-offs, splitting factor, thresholds, 3 coefficient lists)", "tie", ok_tie, out_tie)
+    if not ok_tie:
+        ctx.violation("c02:source-constants", "a constant of the line-shape code (cut-off, Stark splitting factor, weight threshold or "
+                      "polynomial coefficient) differs from the one the model and its theorems use",
+                      {"read_from_source": {k_: [str(x) for x in v_] if isinstance(v_, list) else str(v_) for k_, v_ in mc.items()},
+                       "coqc": out_tie[-1500:]}, found=False)
     import cherab
     assert list(cherab.__path__) == [REPO + "/cherab"], cherab.__path__
     impl = Impl()
@@ -1127,7 +1265,7 @@ def run(ctx):
     rng = ctx.rng
     quick = ctx.quick
 
-    n_class = 24 if quick else 400          # per class
+    n_class = 20 if quick else 400          # per class
     n_direct = 60 if quick else 700
     n_support = 120 if quick else 1500
     cases = []
@@ -1355,6 +1493,9 @@ def run(ctx):
         nonfinite = [i for i, v in enumerate(out) if not math.isfinite(v)]
         probes.append((c, nonfinite))
 
+    # ---- validation policy / polarisation setter (model outcome vs implementation, in Coq) -------------------
+    policy = policy_cases(impl, rng, 30 if quick else 400)
+    dist["policy_and_setter_cases"] = len(policy)
     # ---- GaussianQuadrature through constructor / setter histories -------------------------------------
     quads, quad_fails = quadrature_cases(impl, rng, 80 if quick else 1200)
     search_fails += quad_fails
@@ -1406,13 +1547,18 @@ def run(ctx):
                + "Definition results : list bool := [\n  " + ";\n  ".join(quad_text(r) for r in chunk)
                + "].\nEval vm_compute in (failing results).\n")
         files.append((ctx.write_gen("quadrature_%03d.v" % (si // per), txt), list(range(si, si + len(chunk))), "quad"))
+    for si in range(0, len(policy), 300):
+        chunk = policy[si:si + 300]
+        txt = (header.replace("Cherab.Model.C02_Check.", "Cherab.Model.C02_Check Cherab.Model.C02_Policy.\nFrom Coq Require Import String.")
+               + "Definition results : list bool := [\n  " + ";\n  ".join(chunk) + "].\nEval vm_compute in (failing results).\n")
+        files.append((ctx.write_gen("policy_%03d.v" % (si // 300), txt), list(range(si, si + len(chunk))), "policy"))
     for si in range(0, len(misc), 250):
         chunk = misc[si:si + 250]
         txt = header + "Definition results : list bool := [\n  " + ";\n  ".join(chunk) + "].\nEval vm_compute in (failing results).\n"
         files.append((ctx.write_gen("misc_%03d.v" % (si // 250), txt), list(range(si, si + len(chunk))), "misc"))
     ctx.log("generated %d value cases, %d support probes (%d ambiguous skipped); running coqc" % (len(cases), len(probes), ambiguous))
     res = coqc_many([f for f, _, _ in files], timeout=1500)
-    diff_cases, diff_probes, diff_quads, diff_misc = [], [], [], []
+    diff_cases, diff_probes, diff_quads, diff_misc, diff_policy = [], [], [], [], []
     max_usage = 0.0
     for f, ids, kind in files:
         ok, out = res[f]
@@ -1427,7 +1573,7 @@ def run(ctx):
                        good and not failing, out if not good else "DIFF at local indices %s" % failing)
         if not good:
             ctx.broken.append("coqc failed on %s: %s" % (f, out[-600:]))
-        {"values": diff_cases, "support": diff_probes, "quad": diff_quads, "misc": diff_misc}[kind].extend(ids[i] for i in failing)
+        {"values": diff_cases, "support": diff_probes, "quad": diff_quads, "misc": diff_misc, "policy": diff_policy}[kind].extend(ids[i] for i in failing)
     ctx.log("correspondence: %d value cases (%d disagree), %d support probes (%d disagree)" % (
         len(cases), len(diff_cases), len(probes), len(diff_probes)))
 
@@ -1481,6 +1627,10 @@ def run(ctx):
         ctx.violation(key, "%s: %s" % (sf["cls"], sf["claim"]), sf, found=True)
         if len(seen) >= 6:
             break
+    for pi_ in diff_policy[:3]:
+        ctx.violation("c02:policy:" + policy[pi_].split()[0] + ":" + policy[pi_].split()[1].strip("("),
+                      "constructor validation / polarisation setter: the implementation accepts, rejects or reports another state than "
+                      "the model", {"coq_case": policy[pi_][:2000]}, found=True)
     for mi in diff_misc[:3]:
         ctx.violation("c02:entry-point:" + misc[mi].split()[0], "a public helper (doppler_shift / thermal_broadening / ZeemanStructure.__call__) "
                       "returns another value than the model", {"coq_case": misc[mi][:3000]}, found=True)
@@ -1522,5 +1672,16 @@ def run(ctx):
     })
     ctx.coverage["stark_coarse_grid_probe"] = {"integral_over_R_by_bin_width_in_FWHM": coarse["rows"],
                                                "worst_rel_err": coarse["worst_rel_err"]}
+    erf_c = math.erf(10.0 / math.sqrt(2.0))
+    ctx.coverage["oracle_facts_recorded"] = {
+        "erf(10/M_SQRT2) in libm": erf_c, "eps admissible in C02_gauss_whole_radiance with libm's erf": 1.0 - erf_c,
+        "2*100*2F1(2/5,1;7/5;-100^2.5) (scipy) vs StarkFunction density": "checked per run in the entry-point stream (1e-12)"}
+    ctx.coverage["compared_in_coq"] = {
+        "spectrum bins (classes, live objects, add_gaussian_line, add_lorentzian_line)": "|R|/delta (2^-47 + 2^-50 W/width) per component + 2^-13 of the Stark part",
+        "bins written (radiance = +inf probe)": "exact",
+        "oracle tables": "sqrt entries by squaring (2^-50), erf in [-1,1], erf/sqrt/log/exp tables monotone in their keys (1 ulp)",
+        "GaussianQuadrature orders / ValueErrors after setter histories": "exact", "polynomial integrals": "2^-40 of sum|c_k|M^k|b-a|",
+        "doppler_shift, thermal_broadening": "2^-48 relative", "ZeemanStructure.__call__": "wavelengths exact, ratios 2^-50",
+        "constructor validation, polarisation setter trace": "exact", "source constants (Tie.v)": "exact rationals of the decimal literals"}
     ctx.coverage["samples"] = [cases[0][0], cases[len(cases) // 2][0]] if cases else []
     ctx.grep_gate()
